@@ -24,7 +24,9 @@ def make_world(tag, seq, opt):
     fn, ext = opt
     w = World(tag)
     w.add(mode_line(False, ''))
-    w.add(cfg_line(1, 'shared', fn, ext))          # one Config for the whole sequence
+    # one Config for the whole sequence; in every second world it is an empty WithConfig() configured afterwards by
+    # applying the options to it - the caller's own Config, not the package defaults
+    w.add(cfg_line(1, 'shared', fn, ext, apply=(len(tag) % 2 == 0)))
     w.add('begin 1 %s' % hx(b'TestCfg'))
     w.add('begin 2 %s' % hx(b'TestCfg'))
     # a third Config with its own JSON format options, used first: it must not influence the others
